@@ -30,6 +30,7 @@ type ModEntry struct {
 }
 
 type LoopSpec struct {
+	Preserves []ModEntry
 	Invs      []Clause
 	Decreases SExpr
 	DecSrc    string
@@ -453,6 +454,12 @@ func (w *World) parseFuncContract(it rawItem, pkg *types.Package, external bool)
 					return err
 				}
 				ls.Invs = append(ls.Invs, Clause{Tags: tags, Expr: x, Src: src, Ord: len(ls.Invs)})
+			} else if strings.HasPrefix(body, "preserves") {
+				ents, _, err := parseModifies(strings.TrimSpace(strings.TrimPrefix(body, "preserves")))
+				if err != nil {
+					return err
+				}
+				ls.Preserves = append(ls.Preserves, ents...)
 			} else if strings.HasPrefix(body, "decreases") {
 				src := strings.TrimSpace(strings.TrimPrefix(body, "decreases"))
 				x, err := parseSpec(src)
